@@ -1,3 +1,235 @@
+//! C13 — encoding is linear over GF(2^16). Oracle-free: only relations between outputs of
+//! related inputs are checked (gfref is used for nothing but multiplying by the constant c).
+//! Many input vectors are packed one per symbol slot (slots are independent, C04).
+use crate::core::*;
+use crate::json::J;
+use crate::kv::*;
 use crate::report::*;
-pub fn run(_ctx: &Ctx, rep: &mut Report) { rep.machinery_errors.push("not implemented".into()); }
-pub fn replay(_ctx: &Ctx, _case: &str) -> Result<(), String> { Err("not implemented".into()) }
+use crate::rt::*;
+
+type V = (String, String);
+
+fn enc(eng: &str, rate: &str, k: usize, r: usize, syms: &[Vec<u16>]) -> Result<Vec<Vec<u16>>, V> {
+    let originals: Vec<Vec<u8>> = syms.iter().map(|s| gfref::symbols_to_shard(s)).collect();
+    let bytes = originals[0].len();
+    let rec = real_encode(eng, rate, k, r, bytes, &originals, 0).map_err(|e| ("encode Ok".to_string(), e))?;
+    Ok(rec.iter().map(|s| gfref::shard_to_symbols(s)).collect())
+}
+
+/// zero -> zero
+fn check_zero(eng: &str, rate: &str, k: usize, r: usize) -> Result<u64, V> {
+    for slots in [32usize, 33] {
+        let out = enc(eng, rate, k, r, &vec![vec![0u16; slots]; k])?;
+        for j in 0..r {
+            if out[j].iter().any(|x| *x != 0) {
+                return Err((format!("recovery[{j}] of all-zero originals is all zero"), format!("{:x?}", &out[j][..8.min(slots)])));
+            }
+        }
+    }
+    Ok(2)
+}
+
+/// every symbol value on coordinate axis i: f(v) == XOR of f(2^b) over the set bits of v
+fn check_axis(eng: &str, rate: &str, k: usize, r: usize, i: usize, extra_slot: bool) -> Result<u64, V> {
+    let slots = 65536 + if extra_slot { 1 } else { 0 };
+    let mut syms = vec![vec![0u16; slots]; k];
+    for v in 0..65536usize {
+        syms[i][v] = v as u16;
+    }
+    let out = enc(eng, rate, k, r, &syms)?;
+    for j in 0..r {
+        let basis: Vec<u16> = (0..16).map(|b| out[j][1 << b]).collect();
+        for v in 0..65536usize {
+            let mut want = 0u16;
+            for b in 0..16 {
+                if v >> b & 1 != 0 {
+                    want ^= basis[b];
+                }
+            }
+            if out[j][v] != want {
+                return Err((format!("f_{j}(original {i} = {v:#06x}) == XOR of f over its bits = {want:#06x}"), format!("{:#06x}", out[j][v])));
+            }
+        }
+    }
+    Ok((r * 65536) as u64)
+}
+
+/// all inputs of GF(2)-weight <= 3 in the 16k-bit basis, packed one per slot
+fn check_weight3(eng: &str, rate: &str, k: usize, r: usize) -> Result<u64, V> {
+    let nb = 16 * k;
+    // list of inputs: each is a set of up to 3 basis indexes (i*16+b)
+    let mut inputs: Vec<[usize; 3]> = Vec::new(); // usize::MAX = unused
+    const U: usize = usize::MAX;
+    for a in 0..nb {
+        inputs.push([a, U, U]);
+    }
+    for a in 0..nb {
+        for b in a + 1..nb {
+            inputs.push([a, b, U]);
+        }
+    }
+    // triples: all for k <= 3, else those spanning at least two different originals with a fixed stride
+    for a in 0..nb {
+        for b in a + 1..nb {
+            for c in b + 1..nb {
+                if k > 3 && (a / 16 == c / 16 || (a + b + c) % 5 != 0) {
+                    continue;
+                }
+                inputs.push([a, b, c]);
+            }
+        }
+    }
+    let slots = inputs.len();
+    let mut syms = vec![vec![0u16; slots]; k];
+    for (s, inp) in inputs.iter().enumerate() {
+        for &x in inp {
+            if x != U {
+                syms[x / 16][s] ^= 1 << (x % 16);
+            }
+        }
+    }
+    let out = enc(eng, rate, k, r, &syms)?;
+    for j in 0..r {
+        for (s, inp) in inputs.iter().enumerate() {
+            let mut want = 0u16;
+            for &x in inp {
+                if x != U {
+                    want ^= out[j][x]; // slot x holds the basis vector x itself
+                }
+            }
+            if out[j][s] != want {
+                return Err((format!("f_{j}(sum of basis vectors {:?}) == XOR of their outputs = {want:#06x}", inp.iter().filter(|x| **x != U).collect::<Vec<_>>()), format!("{:#06x}", out[j][s])));
+            }
+        }
+    }
+    Ok((r * slots) as u64)
+}
+
+/// every field constant c times basis vector (i,b): f(c*e) == c*f(e)
+fn check_scalar(f: &gfref::Field, eng: &str, rate: &str, k: usize, r: usize, i: usize, b: usize) -> Result<u64, V> {
+    let e = 1u16 << b;
+    let mut syms = vec![vec![0u16; 65536]; k];
+    for c in 0..65536usize {
+        syms[i][c] = f.mul(c as u16, e);
+    }
+    let out = enc(eng, rate, k, r, &syms)?;
+    let one = f.one() as usize;
+    for j in 0..r {
+        let fe = out[j][one];
+        for c in 0..65536usize {
+            let want = f.mul(c as u16, fe);
+            if out[j][c] != want {
+                return Err((format!("f_{j}({c:#06x} * e_({i},{b})) == {c:#06x} * f_{j}(e) = {want:#06x}"), format!("{:#06x}", out[j][c])));
+            }
+        }
+    }
+    Ok((r * 65536) as u64)
+}
+
+/// dense a, b, a^b
+fn check_dense(eng: &str, rate: &str, k: usize, r: usize, bytes: usize, seed: u64) -> Result<u64, V> {
+    let a = data_dense(k, bytes, seed);
+    let b = data_dense(k, bytes, seed ^ 0xFEED);
+    let ab: Vec<Vec<u8>> = a.iter().zip(&b).map(|(x, y)| x.iter().zip(y).map(|(p, q)| p ^ q).collect()).collect();
+    let ra = real_encode(eng, rate, k, r, bytes, &a, 0).map_err(|e| ("encode Ok".to_string(), e))?;
+    let rb = real_encode(eng, rate, k, r, bytes, &b, seed | 1).map_err(|e| ("encode Ok".to_string(), e))?;
+    let rab = real_encode(eng, rate, k, r, bytes, &ab, 0).map_err(|e| ("encode Ok".to_string(), e))?;
+    for j in 0..r {
+        let x: Vec<u8> = ra[j].iter().zip(&rb[j]).map(|(p, q)| p ^ q).collect();
+        if x != rab[j] {
+            return Err((format!("recovery[{j}](a^b) == recovery(a)^recovery(b) = {}", hex(&x)), hex(&rab[j])));
+        }
+    }
+    Ok(r as u64)
+}
+
+fn run_case(f: &gfref::Field, kv: &Kv) -> Result<u64, V> {
+    let (eng, rate, k, r) = (kv.str("eng"), kv.str("rate"), kv.usize("k"), kv.usize("r"));
+    match kv.str("test") {
+        "zero" => check_zero(eng, rate, k, r),
+        "axis" => check_axis(eng, rate, k, r, kv.usize("i"), kv.usize("x") == 1),
+        "weight3" => check_weight3(eng, rate, k, r),
+        "scalar" => check_scalar(f, eng, rate, k, r, kv.usize("i"), kv.usize("b")),
+        "dense" => check_dense(eng, rate, k, r, kv.usize("bytes"), kv.u64("seed")),
+        t => panic!("test {t}"),
+    }
+}
+
+pub fn replay(_ctx: &Ctx, case: &str) -> Result<(), String> {
+    let kv = Kv::parse(case)?;
+    run_case(&gfref::Field::new(), &kv).map(|_| ()).map_err(|(e, o)| format!("expected {e}; observed {o}"))
+}
+
+pub fn run(ctx: &Ctx, rep: &mut Report) {
+    let f = gfref::Field::new();
+    rep.rule = "per (engine, rate, (k,r)): zero->zero; every one of the 65536 symbol values on every coordinate axis equals the XOR of the outputs of its bits; every input of GF(2)-weight <= 3 over the 16k basis bits (all pairs; all triples for k<=3, cross-original triples on a fixed stride above) equals the XOR of basis outputs; every field constant times every basis vector; dense a,b,a^b at 64/66 bytes; non-trivial = every relation checked on a non-zero input; distinct by (test,engine,rate,k,r,axis/bit)".into();
+    rep.assume("input vectors are packed one per 16-bit slot; slots do not interact (C04)");
+    let mut cfgs: Vec<(usize, usize)> = Vec::new();
+    let kmax = if ctx.thorough() { 9 } else { 5 };
+    for k in 1..=kmax {
+        for r in 1..=kmax {
+            cfgs.push((k, r));
+        }
+    }
+    if ctx.thorough() {
+        cfgs.push((33, 3));
+        cfgs.push((3, 33));
+    }
+    let mut cases = Vec::new();
+    for &eng in &engines_all() {
+        if eng == "default" {
+            continue; // identical object code to avx2/ssse3/nosimd (C14 shows which); C09 ties it to them
+        }
+        let slow = eng == "naive" || eng == "neonemu";
+        for rate in ["high", "low"] {
+            for &(k, r) in &cfgs {
+                let base = Kv::new().with("eng", eng).with("rate", rate).with("k", k).with("r", r);
+                cases.push(base.clone().with("test", "zero"));
+                cases.push(base.clone().with("test", "weight3"));
+                for bytes in [64usize, 66] {
+                    cases.push(base.clone().with("test", "dense").with("bytes", bytes).with("seed", ctx.seed));
+                }
+                let thin = !ctx.thorough() && (slow || k + r > 6) || ctx.thorough() && slow && k + r > 8;
+                for i in 0..k {
+                    if thin && i != (k + r) % k {
+                        continue;
+                    }
+                    cases.push(base.clone().with("test", "axis").with("i", i).with("x", (i + r) % 2));
+                    for b in 0..16 {
+                        if thin && b != (i + r) % 16 || !ctx.thorough() && (b + i + k) % 4 != 0 {
+                            continue;
+                        }
+                        cases.push(base.clone().with("test", "scalar").with("i", i).with("b", b));
+                    }
+                }
+            }
+        }
+    }
+    rep.bound("cfg", J::s(format!("[1..{kmax}]^2{} x {{high,low}} x {{naive,nosimd,ssse3,avx2,neonemu}}", if ctx.thorough() { " + (33,3) (3,33)" } else { "" })));
+    rep.bound("axis_scalar_thinning", J::s("quick: for slow engines or k+r>6 one fixed axis and one fixed bit per configuration, else every axis and every 4th bit; thorough: every axis and bit except slow engines with k+r>8 (one fixed axis/bit)"));
+    let results: Vec<Result<u64, V>> = par_for(cases.len(), 1, |i| match guard(|| run_case(&f, &cases[i])) {
+        Ok(r) => r,
+        Err(p) => Err(("no panic".into(), format!("PANIC: {p}"))),
+    });
+    for (kv, res) in cases.iter().zip(results) {
+        rep.states += 1;
+        rep.traces += 1;
+        rep.distinct += 1;
+        match res {
+            Ok(n) => {
+                rep.evaluations += n;
+                rep.transitions += n;
+            }
+            Err((exp, obs)) => rep.violation(Violation {
+                key: format!("{}-{}-{}-k{}r{}-{}{}", kv.str("test"), kv.str("eng"), kv.str("rate"), kv.str("k"), kv.str("r"), kv.opt("i").unwrap_or(""), kv.opt("b").map(|b| format!("b{b}")).unwrap_or_default()),
+                case: kv.dump(),
+                expected: exp,
+                observed: obs,
+            }),
+        }
+    }
+    for i in [0, cases.len() / 3, cases.len() / 2, cases.len() - 1] {
+        rep.sample(cases[i].dump());
+    }
+    let _ = fmt_usize(0);
+}
